@@ -771,3 +771,17 @@ func (in *Interp) storeFields(fs []DescField, l VLoc, v Val) {
 	in.storeTy(fs[0].Type, l, p.A)
 	in.storeFields(fs[1:], VLoc{l.B, l.Off + TySize(fs[0].Type)}, p.B)
 }
+
+// LoadTy is load_ty for callers outside the package (result decoding); a
+// stuck load panics with a description.
+func (in *Interp) LoadTy(t Type, l VLoc) (v Val) {
+	defer func() {
+		if r := recover(); r != nil {
+			if s, ok := r.(stuckErr); ok {
+				panic(s.msg)
+			}
+			panic(r)
+		}
+	}()
+	return in.loadTy(t, l)
+}
